@@ -81,7 +81,8 @@ SPEC int neighbour(const TREE_T *t, uint64_t r, uint64_t key, uint64_t p) {
   uint64_t v = T_IDX(t)[p], c = T_IDX(t)[r];
   return v == UNUSED || !((c < v && v < key) || (key < v && v < c));
 }
-uint64_t G_p;   /* ghost position */
+uint64_t G_p, G_q;   /* ghost positions */
+uint64_t G_max_key; TREE_T G_tree;
 uint64_t FN_bisect_in(const TREE_T *t, uint64_t first, uint64_t last, uint64_t key)
   PRE(wf, tree_wf(t) && T_RS(t) == RS)
   PRE(range, first != 0 && last <= T_RS(t) && first <= last && used_at(t, first) && used_at(t, last) && key != UNUSED)
@@ -98,11 +99,18 @@ uint64_t FN_bisect_near(const TREE_T *t, uint64_t hint, uint64_t key)
   POST(else_neighbour, !(G_p >= 1 && G_p <= T_RS(t)) || neighbour(t, RET, key, G_p));
 
 /* ---- insert(key, data): map update ---- */
-#define TREE_FRAME(t) __CPROVER_object_whole(t), __CPROVER_object_whole(G_idx), __CPROVER_object_whole(G_dat)
-extern uint64_t G_idx[]; extern MPZ_T G_dat[];
+#define G_stack _ZZN23Parma_Polyhedra_Library7CO_Tree32redistribute_elements_in_subtreeEmmmmRK10__gmp_exprIA1_12__mpz_structS3_EbE5stack
+#define TREE_FRAME(t) __CPROVER_object_whole(t), __CPROVER_object_whole(G_idx), __CPROVER_object_whole(G_dat), \
+  __CPROVER_object_whole(POOL_IDX), __CPROVER_object_whole(POOL_DAT), __CPROVER_object_whole(&POOL_IDX_used), __CPROVER_object_whole(&POOL_DAT_used)
+#define GA_N (RS ? RS : 1)
+uint64_t G_idx[GA_N + 2]; MPZ_T G_dat[GA_N + 1];     /* the entry arrays (harness objects) */
+#ifndef POOL_N
+# define POOL_N 15
+#endif
+uint64_t POOL_IDX[POOL_N + 2]; MPZ_T POOL_DAT[POOL_N + 1]; int POOL_IDX_used, POOL_DAT_used;   /* see stubs/c16_gmp.c */
 void FN_insert_kd(ITER_T *result, TREE_T *t, uint64_t key, const MPZ_T *data)
   PRE(wf, tree_wf(t) && T_RS(t) == RS && (RS == 0 || (T_IDX(t) == G_idx && T_DATA(t) == G_dat)))
-  PRE(key, key != UNUSED)
+  PRE(key, key != UNUSED && G_k != UNUSED)
   ASSIGNS(TREE_FRAME(t), *result)
   POST(wf, tree_wf(t))
   POST(map_updated, coef_eq(lookup(t, G_k), G_k == key ? G_new_data : G_old))
@@ -112,7 +120,7 @@ void FN_insert_kd(ITER_T *result, TREE_T *t, uint64_t key, const MPZ_T *data)
 /* ---- insert(key): the key becomes present; a new key maps to zero (any coefficient copy of Coefficient_zero()) ---- */
 void FN_insert_k(ITER_T *result, TREE_T *t, uint64_t key)
   PRE(wf, tree_wf(t) && T_RS(t) == RS && (RS == 0 || (T_IDX(t) == G_idx && T_DATA(t) == G_dat)))
-  PRE(key, key != UNUSED)
+  PRE(key, key != UNUSED && G_k != UNUSED)
   ASSIGNS(TREE_FRAME(t), *result)
   POST(wf, tree_wf(t))
   POST(others_kept, G_k == key || coef_eq(lookup(t, G_k), G_old))
@@ -123,10 +131,90 @@ void FN_insert_k(ITER_T *result, TREE_T *t, uint64_t key)
 /* ---- erase(key) ---- */
 void FN_erase_k(ITER_T *result, TREE_T *t, uint64_t key)
   PRE(wf, tree_wf(t) && T_RS(t) == RS && (RS == 0 || (T_IDX(t) == G_idx && T_DATA(t) == G_dat)))
-  PRE(key, key != UNUSED)
+  PRE(key, key != UNUSED && G_k != UNUSED)
   ASSIGNS(TREE_FRAME(t), *result)
   POST(wf, tree_wf(t))
   POST(map_updated, G_k == key ? !lookup(t, G_k).present : coef_eq(lookup(t, G_k), G_old))
   POST(size, (int)T_SIZE(t) == G_old_size - (G_key_was_present ? 1 : 0) && count_used(t) == (int)T_SIZE(t));
+
+/* structure without the density clauses (what holds between the steps of an insertion / erasure) */
+SPEC int tree_wf_nd(const TREE_T *t) {
+  uint64_t rs = T_RS(t), n = 0, last = 0; int have_last = 0;
+  if (rs == 0) return T_IDX(t) == 0 && T_DATA(t) == 0 && t->f2 == 0 && T_SIZE(t) == 0
+                      && t->f0.f0 == (uint64_t *)0 + 1 && t->f1.f0 == (uint64_t *)0 + 1;
+  if (depth_of(rs) == 0 || t->f2 != (uint32_t)depth_of(rs) || T_IDX(t) == 0 || T_DATA(t) == 0) return 0;
+  if (T_IDX(t)[0] != 0 || T_IDX(t)[rs + 1] != 0) return 0;
+  for (uint64_t i = 1; i <= CAP; i++) if (i <= rs && T_IDX(t)[i] != UNUSED) {
+    if (have_last && T_IDX(t)[i] <= last) return 0;
+    last = T_IDX(t)[i]; have_last = 1; n++;
+    if (i != (rs + 1) / 2 && T_IDX(t)[parent_of(i)] == UNUSED) return 0;
+  }
+  if (n != T_SIZE(t)) return 0;
+  if (t->f0.f0 != &T_IDX(t)[rs + 1] || t->f0.f1 != &T_DATA(t)[rs + 1]) return 0;
+  if (t->f1.f0 != &T_IDX(t)[rs + 1] || t->f1.f1 != &T_DATA(t)[rs + 1]) return 0;
+  return 1;
+}
+#define ENTRY_ARRAYS(t) (RS == 0 || (T_IDX(t) == G_idx && T_DATA(t) == G_dat))
+/* ---- rebuild_bigger_tree(): same map, capacity 2*rs+1 (3 from the empty tree) ---- */
+void FN_rebuild_bigger_tree(TREE_T *t)
+  PRE(wf, tree_wf_nd(t) && T_RS(t) == RS && ENTRY_ARRAYS(t) && G_k != UNUSED)
+  ASSIGNS(TREE_FRAME(t))
+  POST(wf, tree_wf_nd(t))
+  POST(capacity, T_RS(t) == (RS == 0 ? 3 : 2 * RS + 1))
+  POST(same_map, coef_eq(lookup(t, G_k), G_old) && (int)T_SIZE(t) == G_old_size);
+
+/* ---- increase_keys_from(key, n): every key >= `key' is shifted up by n ---- */
+void FN_increase_keys_from(TREE_T *t, uint64_t key, uint64_t n)
+  PRE(wf, tree_wf(t) && T_RS(t) == RS && ENTRY_ARRAYS(t))
+  PRE(no_wrap, key != UNUSED && G_k != UNUSED && G_k < ((uint64_t)1 << 62) && n < ((uint64_t)1 << 62) && (T_SIZE(t) == 0 || G_max_key < ((uint64_t)1 << 62)))
+  ASSIGNS(TREE_FRAME(t))
+  POST(wf, tree_wf(t))
+  POST(shifted, G_k < key ? coef_eq(lookup(t, G_k), G_old) : coef_eq(lookup(t, G_k + n), G_old))
+  POST(gap, !(G_k >= key && G_k < key + n) || !lookup(t, G_k).present)
+  POST(size, (int)T_SIZE(t) == G_old_size);
+
+/* ---- the forward iterator steps to the next used slot (in-order successor) ---- */
+ITER_T *FN_iter_inc(ITER_T *it)
+  PRE(wf, tree_wf(&G_tree) && T_RS(&G_tree) == RS && RS != 0 && T_IDX(&G_tree) == G_idx && T_DATA(&G_tree) == G_dat)
+  PRE(at_used, G_p >= 1 && G_p <= RS && G_idx[G_p] != UNUSED && it->f0 == &G_idx[G_p] && it->f1 == &G_dat[G_p])
+  ASSIGNS(*it)
+  POST(moved_right, it->f0 > &G_idx[G_p] && it->f0 <= &G_idx[RS + 1] && (it->f1 - G_dat) == (it->f0 - G_idx))
+  POST(lands_on_used_or_end, it->f0 == &G_idx[RS + 1] || *it->f0 != UNUSED)
+  POST(skips_only_unused, !(G_q > G_p && &G_idx[G_q] < it->f0) || G_idx[G_q] == UNUSED)
+  POST(returns_self, RET == it);
+
+/* ---- rebalance(itr, key, value), insertion mode: itr is the used LEAF next to which `key' belongs; size_ has
+   already been incremented by the caller.  The function places (key, value) and redistributes the elements of
+   the smallest enclosing subtree with acceptable density.  Hoare-style over the ghost key:
+   { lookup(G_k) = G_old }  rebalance  { lookup(G_k) = (G_k == key ? value : G_old) } ---- */
+#define TITER_T struct class_2eParma_Polyhedra_Library_3a_3aCO_Tree_3a_3atree_iterator
+SPEC int count_used_rs(const TREE_T *t) { int n = 0; for (uint64_t i = 1; i <= CAP; i++) if (i <= T_RS(t) && T_IDX(t)[i] != UNUSED) n++; return n; }
+SPEC int tree_shape(const TREE_T *t, int pending) {       /* tree_wf_nd with size_ == count + pending */
+  uint64_t rs = T_RS(t), n = 0, last = 0; int have_last = 0;
+  if (depth_of(rs) == 0 || t->f2 != (uint32_t)depth_of(rs) || T_IDX(t) == 0 || T_DATA(t) == 0) return 0;
+  if (T_IDX(t)[0] != 0 || T_IDX(t)[rs + 1] != 0) return 0;
+  for (uint64_t i = 1; i <= CAP; i++) if (i <= rs && T_IDX(t)[i] != UNUSED) {
+    if (have_last && T_IDX(t)[i] <= last) return 0;
+    last = T_IDX(t)[i]; have_last = 1; n++;
+    if (i != (rs + 1) / 2 && T_IDX(t)[parent_of(i)] == UNUSED) return 0;
+  }
+  if (n + (uint64_t)pending != T_SIZE(t)) return 0;
+  if (t->f0.f0 != &T_IDX(t)[rs + 1] || t->f0.f1 != &T_DATA(t)[rs + 1]) return 0;
+  if (t->f1.f0 != &T_IDX(t)[rs + 1] || t->f1.f1 != &T_DATA(t)[rs + 1]) return 0;
+  return 1;
+}
+SPEC int absent_and_adjacent(const TREE_T *t, uint64_t leaf, uint64_t key) {
+  for (uint64_t p = 1; p <= CAP; p++) if (p <= T_RS(t)) { if (T_IDX(t)[p] == key) return 0; if (!neighbour(t, leaf, key, p)) return 0; }
+  return 1;
+}
+void FN_rebalance(TITER_T *result, TREE_T *t, TITER_T *itr, uint64_t key, const MPZ_T *value)
+  PRE(shape, T_RS(t) == RS && RS >= 7 && ENTRY_ARRAYS(t) && tree_shape(t, 1))
+  PRE(density, !ratio_gt(T_SIZE(t), RS, 91) && !ratio_lt(T_SIZE(t), RS, 38))
+  PRE(leaf, itr->f0 == t && itr->f2 == 1 && (itr->f1 & 1) == 1 && itr->f1 >= 1 && itr->f1 <= RS && T_IDX(t)[itr->f1] != UNUSED)
+  PRE(key, key != UNUSED && G_k != UNUSED && absent_and_adjacent(t, itr->f1, key))
+  PRE(ghost, coef_eq(lookup(t, G_k), G_old))
+  ASSIGNS(TREE_FRAME(t), *result, __CPROVER_object_whole(&G_stack))
+  POST(shape, T_RS(t) == RS && tree_shape(t, 0))
+  POST(map_updated, coef_eq(lookup(t, G_k), G_k == key ? G_new_data : G_old));
 #endif
 #endif
